@@ -6,6 +6,22 @@
 (* while one member is parked inside its own Start (yield point                *)
 (* srv.Service.Start.launched, its Run already invoked), resp. release it.     *)
 (*                                                                            *)
+(* Pre-states (Pres): a member is new, or somebody else - the client, with a   *)
+(* context of its own - started it before the group does and it is still       *)
+(* running ("running": such members return only when the driver says so, gate  *)
+(* mode) or has already returned ("finished").  g.Start then finds it started  *)
+(* (Service.Start answers ErrServiceAlreadyStarted / ErrServiceReturned) and   *)
+(* does not start it again; "awaits them all" covers it like the orchestrator  *)
+(* clause of C11 does: g.Wait() stays blocked while it has not returned and    *)
+(* collects its failure.  A running member may also return before the group    *)
+(* is started.  Outcome kinds as in CleanupAbs (plain error, panic, errors     *)
+(* wrapping io.EOF / a context error).                                         *)
+(*                                                                            *)
+(* Sym = TRUE explores member configurations up to renaming only (sorted along *)
+(* the member names); the position of a member in the group's input then is    *)
+(* not varied, which the random schedules (Group_sim) and the thorough tier    *)
+(* (Sym = FALSE) do.                                                           *)
+(*                                                                            *)
 (* Reading (DESIGN 4: weakest obligation): "the group's own context" ends when *)
 (* the group's Run returns (C10's vocabulary), which the code does as soon as  *)
 (* every member was started.  Hence a ctx-mode member may or may not have      *)
@@ -17,7 +33,7 @@
 (***************************************************************************)
 EXTENDS Integers, Sequences, FiniteSets, TLC, Json
 
-CONSTANTS Members, Waiters, Kinds, Modes, Depth, Hook
+CONSTANTS Members, Waiters, Kinds, Modes, Pres, Depth, Hook, Sym
 
 VARIABLES ucfg, started, ended, held, mst, st, hist
 vars == <<ucfg, started, ended, held, mst, st, hist>>
@@ -25,13 +41,24 @@ view == <<ucfg, started, ended, held, mst, st>>
 
 OpIds == Waiters \cup {"gs"}
 
-Init == /\ ucfg \in [Members -> [kind : Kinds, mode : Modes]]
+KindOrd == <<"ok", "error", "panic", "eof", "canceled", "deadline">>
+ModeOrd == <<"gate", "ctx">>
+PreOrd  == <<"new", "running", "finished">>
+NameOrd == <<"a", "b", "c", "d", "e">>
+Idx(s, x) == CHOOSE i \in 1..Len(s) : s[i] = x
+Rank(c) == Idx(PreOrd, c.pre) * 100 + Idx(ModeOrd, c.mode) * 10 + Idx(KindOrd, c.kind)
+Sorted(u) == \A x, y \in Members : Idx(NameOrd, x) < Idx(NameOrd, y) => Rank(u[x]) <= Rank(u[y])
+ErrKinds == {"error", "eof", "canceled", "deadline"}
+
+\* members somebody else started run on that owner's context: gate mode
+Cfgs == {c \in [kind : Kinds, mode : Modes, pre : Pres] : c.pre # "new" => c.mode = "gate"}
+Init == /\ ucfg \in {u \in [Members -> Cfgs] : Sym => Sorted(u)}
         /\ started = FALSE /\ ended = FALSE /\ held = FALSE
-        /\ mst = [m \in Members |-> "idle"]
+        /\ mst = [m \in Members |-> IF ucfg[m].pre = "running" THEN "in" ELSE IF ucfg[m].pre = "finished" THEN "ret" ELSE "idle"]
         /\ st = [o \in OpIds |-> "idle"] /\ hist = <<>>
 
 R(k) == [k |-> k, must |-> {}, pan |-> "any", nil |-> "any"]
-Fail(m) == IF ucfg[m].kind = "error" THEN {"e:" \o m} ELSE IF ucfg[m].kind = "panic" THEN {"p:" \o m} ELSE {}
+Fail(m) == IF ucfg[m].kind \in ErrKinds THEN {"e:" \o m} ELSE IF ucfg[m].kind = "panic" THEN {"p:" \o m} ELSE {}
 Agg == [k |-> "agg", must |-> UNION {Fail(m) : m \in Members},
         pan |-> IF \E m \in Members : ucfg[m].kind = "panic" THEN "t" ELSE "any", nil |-> "any"]
 
@@ -52,13 +79,13 @@ Commit(op, id, arg, ms, en, hd, st2, res2) ==
                            started |-> {}, seen |-> {}]])
 
 NoRes == [o \in OpIds |-> {}]
-AllIn == [m \in Members |-> "in"]
+AllIn == [m \in Members |-> IF mst[m] = "idle" THEN "in" ELSE mst[m]]
 
 StartOp == /\ ~started /\ started' = TRUE
            /\ Commit("start", "gs", "none", AllIn, ended, FALSE, [st EXCEPT !["gs"] = "done"], [NoRes EXCEPT !["gs"] = {R("nil")}])
 
 \* all members ignore their context here, so the observations do not depend on which member is parked
-StartHold == /\ Hook /\ ~started /\ started' = TRUE /\ \A m \in Members : ucfg[m].mode = "gate"
+StartHold == /\ Hook /\ ~started /\ started' = TRUE /\ \A m \in Members : ucfg[m].mode = "gate" /\ ucfg[m].pre = "new"
              /\ Commit("starthold", "gs", "none", AllIn, ended, TRUE, [st EXCEPT !["gs"] = "done"], [NoRes EXCEPT !["gs"] = {R("nil")}])
 
 RelHold == /\ held /\ UNCHANGED started
@@ -82,7 +109,7 @@ Spec == Init /\ [][Next]_vars
 
 Inv == \A w \in Waiters : st[w] = "done" => Must(mst) = {}
 
-Units == {[name |-> m, kind |-> ucfg[m].kind, mode |-> ucfg[m].mode, pre |-> "new"] : m \in Members}
+Units == {[name |-> m, kind |-> ucfg[m].kind, mode |-> ucfg[m].mode, pre |-> ucfg[m].pre] : m \in Members}
 Beh(h) == [cfg |-> [comp |-> "group", units |-> Units, workers |-> 0, cont |-> FALSE], steps |-> h]
 EmitAll  == (Len(hist) < Depth /\ ENABLED Step) \/ PrintT(<<"BEH", ToJson(Beh(hist))>>)
 EmitEdge == PrintT(<<"BEH", ToJson(Beh(hist'))>>)
